@@ -603,7 +603,9 @@ def decorator_lift_transform_cached(transform, class_fn, **trafo_kwargs):
         if not multi_scope:
           scopes = [scopes]
         cloned, args, kwargs = set_module_scopes(self, args, kwargs, scopes)
-        object.__setattr__(cloned, '_state', state.export())
+        # take the state of the module of THIS call: the transformed function is
+        # built once and kept, so `state` would be the snapshot of the first call
+        object.__setattr__(cloned, '_state', self._state.export())
         res = prewrapped_fn(cloned, *args, **kwargs)
         self._state.reimport(cloned._state)
         _test_transformed_return_values(
@@ -722,7 +724,8 @@ def module_class_lift_transform_cached(
           # we reference module_class, not self.__class__ to avoid infinite loop
           cloned = module_class(parent=None, **attrs)
           cloned, args, kwargs = set_module_scopes(cloned, args, kwargs, scopes)
-          object.__setattr__(cloned, '_state', state.export())
+          # see decorator_lift_transform_cached: not the snapshot of the first call
+          object.__setattr__(cloned, '_state', self._state.export())
           res = fn(cloned, *args, **kwargs)
           self._state.reimport(cloned._state)
           _test_transformed_return_values(res, fn_name)
